@@ -56,6 +56,9 @@ color(r). color(g). color(b).
 col3(A, B, C, D) :- color(A), color(B), color(C), color(D), diff(A, B), diff(A, C), diff(B, C), diff(B, D), diff(C, D).
 diff(r, g). diff(r, b). diff(g, r). diff(g, b). diff(b, r). diff(b, g).
 dapp(X-Y, Y-Z, X-Z).
+opl([A,B|R], R).
+opl([A,B,C,D|R], four(R)).
+opl([A|R], one(A, R)).
 gen(X) :- between(1, 4, X).
 pair(X, Y) :- gen(X), gen(Y), X < Y.
 twice(G) :- call(G), call(G).
@@ -126,6 +129,14 @@ func classicQuery(i int, size int) (string, int) {
 		func() (string, int) { return fmt.Sprintf("between(1, %d, X), X mod 3 =:= 0", n*3), 40 },
 		func() (string, int) { return fmt.Sprintf("app(X, Y, %s), len(X, N), N > 1", listOfInts(n%6+2)), 20 },
 		func() (string, int) { return fmt.Sprintf("perm(%s, P), P = [3|_]", listOfInts(4)), 10 },
+		// open lists with several known elements meeting open lists of another length (in =/2, in heads, through variables)
+		func() (string, int) { return "[1,2,3|T] = [A,B|R]", 3 },
+		func() (string, int) { return "[A,B|R] = [1,2,3|T], T = [4]", 3 },
+		func() (string, int) { return "X = [a,b,c,d|T], Y = [P,Q|R], X = Y, T = [e]", 3 },
+		func() (string, int) { return "opl([1,2,3|T], R), T = [9]", 5 },
+		func() (string, int) { return "opl(L, R), L = [x,y,z|T]", 5 },
+		func() (string, int) { return fmt.Sprintf("app(X, [Y1,Y2|Z], %s), X = [P,Q|W]", listOfInts(n%5+4)), 20 },
+		func() (string, int) { return "dapp([a,b,c|X]-X, [d,e|Y]-Y, L-[]), L = [_,_|M]", 3 },
 	}
 	return qs[i%len(qs)]()
 }
